@@ -323,7 +323,8 @@ class CGLS(object):
             # convergence
             normx = LA.norm(x)
             xmax = max(xmax, normx)
-            flag = (norms <= norms0*self.tol) or (normx*self.tol >= 1)
+            # (the original test `normx*tol >= 1` stopped after one iteration whenever the solution has norm >= 1/tol)
+            flag = (norms <= norms0*self.tol)
             # resNE = norms / norms0
 
         shrink = normx/xmax
@@ -430,7 +431,7 @@ class PCGLS:
             # convergence
             normx = LA.norm(x)
             xmax = max(xmax, normx)
-            flag = (norms <= norms0*self._tol) or (normx*self._tol >= 1)
+            flag = (norms <= norms0*self._tol)
             # resNE = norms / norms0
 
         shrink = normx/xmax
